@@ -298,6 +298,11 @@ pub fn inputs_c03(r: &mut Rng, n: usize, _tier: &str, out: &mut dyn Write) {
                 writeln!(out, "{} {} {}", op, dstr(a), dstr(b)).unwrap()
             }
             6 => {
+                if r.chance(1, 3) {
+                    let c = partner(r, b);
+                    writeln!(out, "ordfns {} {} {}", dstr(a), dstr(b), dstr(c)).unwrap();
+                    continue;
+                }
                 let op = *r.pick(&["min", "max"]);
                 writeln!(out, "{} {} {}", op, dstr(a), dstr(b)).unwrap()
             }
@@ -502,6 +507,22 @@ pub fn exec(op: &str, a: &[&str]) -> Option<String> {
             let o = x.cmp(&y);
             assert_eq!(Some(o), x.partial_cmp(&y));
             Some(format!("ok {}", ord2s(o)))
+        }
+        // the std entry points of the order (the `Ord` trait's provided methods, core::cmp, clamp, Iterator::min / max),
+        // which the inherent Duration::min / max shadow in method-call syntax
+        "ordfns" => {
+            let (x, y, z) = (s2d(a[0]), s2d(a[1]), s2d(a[2]));
+            let (lo, hi) = if y.cmp(&z) == core::cmp::Ordering::Greater { (z, y) } else { (y, z) };
+            Some(format!(
+                "ok {} {} {} {} {} {} {}",
+                d2s(Ord::min(x, y)),
+                d2s(Ord::max(x, y)),
+                d2s(core::cmp::min(x, y)),
+                d2s(core::cmp::max(x, y)),
+                d2s(Ord::clamp(x, lo, hi)),
+                d2s([x, y, z].iter().copied().min().unwrap()),
+                d2s([x, y, z].iter().copied().max().unwrap())
+            ))
         }
         "min" => okd(s2d(a[0]).min(s2d(a[1]))),
         "max" => okd(s2d(a[0]).max(s2d(a[1]))),
